@@ -1716,7 +1716,8 @@ THEOREMS = {
             "Iauthd.Properties.C05_blank_is_plain", "Iauthd.Properties.C05_dronecheck_no_stamp", "Iauthd.Proto.okStamp_some",
             "Iauthd.Properties.C05_ok_readers_agree", "Iauthd.Properties.okStamp_isSome"],
     "C06": ["Iauthd.Properties.C06_query_iff", "Iauthd.Properties.C06_eligible", "Iauthd.Properties.C06_malformed_password",
-            "Iauthd.Properties.C06_limits", "Iauthd.Properties.C06_prefix"],
+            "Iauthd.Properties.C06_limits", "Iauthd.Properties.C06_prefix",
+            "Iauthd.Properties.C06_password_readers_agree", "Iauthd.Proto.scanModes_spec"],
     "C07": ["Iauthd.Properties.C07_event_frame", "Iauthd.Properties.C07_drop_frame", "Iauthd.Properties.C07_reply_frame",
             "Iauthd.Properties.C07_announce_frame", "Iauthd.Properties.C07_handler_input", "Iauthd.Proto.withReq_others"],
     "C08": ["Iauthd.Properties.C08_no_fault", "Iauthd.Properties.C08_line_total", "Iauthd.Properties.C08_chunking",
